@@ -323,7 +323,13 @@ class PageRenderer:
                         # Check for change
                         # If a higher level changed (force_render),
                         # we must render this level too.
-                        if str(val) != str(last_val) or force_render:
+                        # No value in force yet for this level (e.g. after a
+                        # divider group) always needs a heading.
+                        if (
+                            last_val is None
+                            or str(val) != str(last_val)
+                            or force_render
+                        ):
                             force_render = True
 
                             # Find col index for attributes
